@@ -2,6 +2,7 @@ import FFVerif.Props.C02
 import FFVerif.Props.C13Prop
 import FFVerif.Props.C06Def
 import FFVerif.Props.C04Tile
+import FFVerif.Props.C01Unique
 import FFVerif.Pins.pinDiagonalize
 import FFVerif.Pins.pinPropagatorAtArbT
 import FFVerif.Pins.pinConcatenate
@@ -55,6 +56,12 @@ import FFVerif.Pins.C02_source_shape
 #print axioms FFVerif.C13.segment_propagator_unique
 #print axioms FFVerif.C13.piecewise_unique
 #print axioms FFVerif.C13.propagators_unique
+#print axioms FFVerif.EighUniqueAux.trans_support
+#print axioms FFVerif.EighUniqueAux.eigenvalue_mem
+#print axioms FFVerif.EighUniqueAux.eigenvalues_perm
+#print axioms FFVerif.C01.eigvals_perm
+#print axioms FFVerif.C01.Useg_eigh_independent
+#print axioms FFVerif.C01.Useg_eq_exp
 #print axioms FFVerif.C04Tile.times_concat
 #print axioms FFVerif.C04Tile.tau_concat
 #print axioms FFVerif.C04Tile.times_tile
